@@ -403,6 +403,65 @@ def run_impl(cases, timeout=1800):
     return res
 
 
+def anchor_files(pid):
+    for l in open(os.path.join(ROOT, 'properties.jsonl')):
+        d = json.loads(l)
+        if d['id'] == pid:
+            return [f for f in d.get('anchors', {}).get('files', []) if f.endswith('.go') and not f.startswith('internal/') and not f.startswith('wasm/')]
+    return []
+
+
+def block_key(repo, fname, sl, el):
+    """a block of the coverage profile, identified by its text (line numbers move when code is edited)"""
+    try:
+        lines = open(os.path.join(repo, fname)).read().split('\n')
+    except OSError:
+        return None
+    return fname + ': ' + ' '.join(' '.join(l.split()) for l in lines[sl - 1:el] if l.strip())[:300]
+
+
+def unexercised_blocks(pid, cases, log):
+    """The blocks of the files the property is anchored in that the implementation never executed while answering
+    [cases] (Go's block counters, go build -cover).  Returns (list of (location, key), number of blocks) or (None, 0)."""
+    import shutil, tempfile
+    files = anchor_files(pid)
+    native = [c for c in cases if c.split(' ')[0] not in WASM_OPS and c.split(' ')[0] not in REST_OPS]
+    if not files or not native:
+        return None, 0
+    binp = os.path.join(WORK, 'harness_cover')
+    base = ['go', 'build', '-cover', '-covermode=count', '-coverpkg=github.com/ja7ad/otp/...,./...']
+    hdir = os.path.join(ROOT, 'harness')
+    rc, out = sh(base + ['-tags', 'verif', '-o', binp, '.'], cwd=hdir, env=GOENV, timeout=1800)
+    if rc:
+        rc, out = sh(base + ['-o', binp, '.'], cwd=hdir, env=GOENV, timeout=1800)
+    if rc:
+        log.write('--- cover build failed\n' + out[-1500:])
+        return None, 0
+    d = tempfile.mkdtemp(prefix='cov', dir=WORK)
+    try:
+        sh([binp, 'exec'], inp='\n'.join(native) + '\n', timeout=3600, env=dict(os.environ, GOCOVERDIR=d))
+        txt = os.path.join(d, 'p.txt')
+        sh(['go', 'tool', 'covdata', 'textfmt', '-i=' + d, '-o=' + txt], env=GOENV, timeout=300)
+        blocks, missed = {}, []
+        if os.path.exists(txt):
+            for line in open(txt):
+                m = re.match(r'github\.com/ja7ad/otp/([^:]+):(\d+)\.\d+,(\d+)\.\d+ \d+ (\d+)', line)
+                if m and m.group(1) in files:
+                    loc = (m.group(1), int(m.group(2)), int(m.group(3)))
+                    blocks[loc] = blocks.get(loc, 0) + int(m.group(4))
+        for (f, sl, el), n in sorted(blocks.items()):
+            if n == 0:
+                missed.append(('%s:%d' % (f, sl), block_key(REPO, f, sl, el)))
+        return missed, len(blocks)
+    finally:
+        shutil.rmtree(d, ignore_errors=True)
+
+
+def coverage_baseline(pid):
+    p = os.path.join(ROOT, 'coverage_baseline', pid + '.txt')
+    return set(l.rstrip('\n') for l in open(p)) if os.path.exists(p) else None
+
+
 def coq_bytes(s):
     return '[' + ';'.join(str(b) for b in s.encode()) + ']'
 
@@ -492,6 +551,9 @@ def load_known():
     return known
 
 
+LAST_CASES = []
+
+
 def correspondence(pid, streams, seed, tier, log, extra_cases=None, scale=1):
     """returns dict(stats) and list of disagreements"""
     cases = list(load_corpus(pid))
@@ -506,6 +568,7 @@ def correspondence(pid, streams, seed, tier, log, extra_cases=None, scale=1):
         cases += extra_cases
     impl = run_impl(cases)
     model = run_model(cases)
+    LAST_CASES[:] = cases
     diffs, drift = [], []
     hist = Counter()
     ops = Counter()
@@ -746,6 +809,20 @@ def run_check(pid, tier, seed, replay, log, t0):
     else:
         if cfg['streams'] or load_corpus(pid):
             stats, diffs, drift = correspondence(pid, cfg['streams'], seed, tier, log, scale=scale)
+    # ---- the source tie is broken: the property rests on the correspondence alone, which says nothing about code it
+    #      never ran.  Blocks of the files the property is anchored in that were not executed (and are not among those
+    #      the same run leaves unexecuted on the unchanged tree, coverage_baseline/) are reported.
+    if src_tie and src_tie.get('failed') and st['harness_ok'] and LAST_CASES:
+        base = coverage_baseline(pid)
+        missed, nblocks = unexercised_blocks(pid, LAST_CASES, log)
+        if missed is not None and base is not None:
+            new = [(loc, key) for (loc, key) in missed if key not in base]
+            src_tie['blocks_in_anchor_files'] = nblocks
+            src_tie['unexercised_blocks_not_in_baseline'] = [loc for loc, _ in new]
+            for loc, key in new[:3]:
+                diffs.append({'case': '(code not exercised, %s) %s' % (loc, key), 'impl': 'never executed by the %d cases of this run' % len(LAST_CASES),
+                              'model': 'the theorems over the translated source no longer check, so nothing but the correspondence speaks for this code',
+                              'spec': '-', 'kind': 'code the correspondence never ran, while the source tie is broken', 'no_input': True})
     extra = extra_engines(pid, tier, seed, log, st)
     for d in extra.get('violations', []):
         diffs.append(d)
